@@ -1,5 +1,77 @@
-use serde_json::Value;
+use crate::ops::{b, cps, s};
+use serde_json::{json, Value};
+use std::collections::HashMap;
+use text_utils::data::preprocessing::{preprocessing, Part, PreprocessingFnConfig};
+use text_utils::data::{TextDataInfo, TrainData};
 
-pub fn dispatch(op: &str, _req: &Value) -> Result<Value, String> {
-    Err(format!("unknown op {op}"))
+/// Parse a Rust `{:?}`-escaped string literal starting right after the opening quote; returns (string, rest).
+fn unescape(src: &str) -> (String, &str) {
+    let mut out = String::new();
+    let mut it = src.char_indices();
+    while let Some((i, c)) = it.next() {
+        match c {
+            '"' => return (out, &src[i + 1..]),
+            '\\' => {
+                let (_, e) = it.next().unwrap();
+                match e {
+                    'n' => out.push('\n'),
+                    'r' => out.push('\r'),
+                    't' => out.push('\t'),
+                    '0' => out.push('\0'),
+                    '\\' => out.push('\\'),
+                    '"' => out.push('"'),
+                    '\'' => out.push('\''),
+                    'u' => {
+                        let mut hex = String::new();
+                        it.next(); // {
+                        for (_, h) in it.by_ref() {
+                            if h == '}' {
+                                break;
+                            }
+                            hex.push(h);
+                        }
+                        out.push(char::from_u32(u32::from_str_radix(&hex, 16).unwrap()).unwrap());
+                    }
+                    other => out.push(other),
+                }
+            }
+            c => out.push(c),
+        }
+    }
+    (out, "")
+}
+
+/// (input, target) of a TrainData via its Debug rendering (the fields are private)
+pub fn parts_of(d: &TrainData) -> (String, String) {
+    let dbg = format!("{:?}", d);
+    let a = dbg.find("input: \"").unwrap() + 8;
+    let (input, rest) = unescape(&dbg[a..]);
+    let b2 = rest.find("target: \"").unwrap() + 9;
+    let (target, _) = unescape(&rest[b2..]);
+    (input, target)
+}
+
+pub fn dispatch(op: &str, req: &Value) -> Result<Value, String> {
+    match op {
+        "corrupt_ws" => {
+            let text = s(req, "s")?;
+            let part_in = req["part"].as_str().ok_or("part")? == "Input";
+            let cfg = PreprocessingFnConfig::WhitespaceCorruption(
+                if part_in { Part::Input } else { Part::Target },
+                req["iw"].as_f64().ok_or("iw")?,
+                req["dw"].as_f64().ok_or("dw")?,
+                b(req, "g")?,
+            );
+            let f = preprocessing(cfg);
+            let other = "o t h e r".to_string();
+            let item = if part_in { TrainData::new(text, Some(other)) } else { TrainData::new(other, Some(text)) };
+            let seed: u64 = req["seed"].as_str().ok_or("seed")?.parse().map_err(|_| "seed")?;
+            let info = TextDataInfo { seed, file_idx: 0, marks: HashMap::new() };
+            let (item, _) = f(item, info).map_err(|e| e.to_string())?;
+            let (i, t) = parts_of(&item);
+            let (cor, oth) = if part_in { (i, t) } else { (t, i) };
+            Ok(json!({"corrupted": cps(&cor), "other": cps(&oth)}))
+        }
+        _ => crate::ops10::dispatch(op, req),
+    }
 }
